@@ -195,6 +195,7 @@ class Runner:
                 self.res.violation("%s/cb-%s" % (self.prop.lower(), e[1]), "callback %s during SDO request" % e[1], sim=self.sim)
         self.res.counters["requests"] += 1
         self.res.counters["responses"] += len(own)
+        self.last_failed = [bool(failed) for (t, cid, dlc, data, failed) in S.txs(evs) if cid == w.resp_id(s)]
         return [d for (_, d) in own]
 
     def transfer(self, s, coro, noise=None):
@@ -447,7 +448,7 @@ def make_upload(rng, o, mode, opts):
         if opts.get("vary"):
             return rng.choice([1, 2, 3, 7, 20, 64, 127, bs])
         return bs
-    return RC.run(RC.upload_block, o.idx, o.sub, bs, ack_fn=ack, next_blksize_fn=nbs, crc=opts.get("crc", False))
+    return RC.run(RC.upload_block, o.idx, o.sub, bs, ack_fn=ack, next_blksize_fn=nbs, crc=opts.get("crc", False), lost_fn=opts.get("lost_fn"))
 
 
 def c03_work(item, ctx):
@@ -494,7 +495,17 @@ def c03_work(item, ctx):
                         "ack": rng.choice(["all", "rand", "rand"]), "vary": rng.random() < 0.4, "crc": rng.random() < 0.2}
             reps = 1 if kind == "enum" else rng.choice([1, 1, 2, 3])
             for rep in range(reps):
+                if mode == "blk" and kind != "enum" and rng.random() < 0.12:
+                    # the CAN driver refuses one data segment of the first block (transmit queue full): for the client this is a lost
+                    # segment - it acknowledges what it got in sequence and the server has to send the rest again
+                    nfirst = min(opts["blksize"], (o.size() + 6) // 7)
+                    kf = 1 + rng.choice([1, nfirst, nfirst, rng.randint(1, nfirst)])
+                    sim.cmd("fault cansend %d" % kf)
+                    opts = dict(opts, lost_fn=lambda: run.last_failed)
+                    res.counters["uploads_with_refused_segment"] += 1
                 out = run.transfer(0, make_upload(rng, o, mode, opts))
+                opts = {k_: v_ for k_, v_ in opts.items() if k_ != "lost_fn"}
+                sim.cmd("fault cansend 0")
                 res.evals += 1
                 desc = "%s upload of %04x:%02x (%s, %d bytes) %s, read #%d" % (mode, o.idx, o.sub, o.kind, o.size(), opts if mode == "blk" else "", rep + 1)
                 res.counters["up_" + mode] += 1
